@@ -435,7 +435,13 @@ func runCase(r *rig, cs caseSpec) (sent []string, obs string) {
 			if firstName == "" {
 				firstName = name
 			}
-			send(&packet.ServerLogin{Username: name, HolderID: uuid.OfflinePlayerUUID(name)})
+			if name == "" {
+				// gate's own encoder refuses an empty name: write the frame by hand (id 0, empty string, uuid)
+				_, _ = enc.Write(append([]byte{0x00, 0x00}, make([]byte, 16)...))
+				_ = bw.Flush()
+			} else {
+				send(&packet.ServerLogin{Username: name, HolderID: uuid.OfflinePlayerUUID(name)})
+			}
 			wait()
 		case 'E':
 			f := strings.Split(in, ":")
@@ -547,7 +553,7 @@ func (g *gen) validName() string {
 	return s
 }
 func (g *gen) name() string {
-	switch g.r.Intn(14) {
+	switch g.r.Intn(28) {
 	case 0:
 		return "x" // too short
 	case 1:
@@ -589,8 +595,8 @@ func (g *gen) input() string {
 }
 
 func (g *gen) sequence() []string {
-	switch g.r.Intn(5) {
-	case 0, 1: // the well-behaved shape with perturbations
+	switch g.r.Intn(6) {
+	case 0, 1, 2, 3: // the well-behaved shape with perturbations
 		seq := []string{"L:" + hex.EncodeToString([]byte(g.validName()))}
 		if g.r.Chance(1, 3) {
 			seq = append([]string{g.input()}, seq...)
